@@ -1,6 +1,8 @@
 SPECIFICATION Spec
 CONSTANT Budget = 4
 CONSTANT MaxField = 3
+CONSTANT NegControl = FALSE
+CONSTANT Rich = TRUE
 VIEW View
 INVARIANT OracleAccepts
 INVARIANT OracleRejects
